@@ -3,8 +3,8 @@
    actually handed to O2JMapSet.read (run-length chunks; produced by Python's struct.pack, independently
    of the Coq encoder), and what the implementation returned.
      wf_ok   = F is well formed AND the bytes are exactly  encode_file F ++ trailing
-     corr_ok = the implementation's output equals the model of the code as it is now (read_now) OR the
-               model of the repaired sweep (read_fixed)   [rows up to permutation, times within tol]
+     corr_ok = the implementation's output equals the model read_fixed (the repaired reader)
+               [rows up to permutation, times within tol]
      spec_ok = negb wf || the output is what F denotes (ojn_denote), judged on the implementation alone. *)
 From Coq Require Import ZArith QArith List Bool.
 From RV Require Export Base.PyNum Base.Bytes Formats.O2J Formats.O2JSpec Generated.Tables.
@@ -31,23 +31,8 @@ Definition opt_close (tol : Q) (m out : option oset) : bool :=
   | _, _ => false
   end.
 
-Definition opt_close_relaxed (tol : Q) (m out : option oset) : bool :=
-  match m, out with
-  | None, None => true
-  | Some a, Some b => oset_close_relaxed tol a b
-  | _, _ => false
-  end.
-
-(* accepted models: sweep as on the pinned tree / repaired; hold length truncated as on the pinned tree /
-   repaired.  Exact stream (tol = 0): one of the four must match exactly.  Rounded stream: additionally
-   the untruncated model may match under the relaxed hold-length relation. *)
-Definition corr (tol : Q) (bs : list Z) (out : option oset) : bool :=
-  opt_close tol (read_with false true bs) out
-  || opt_close tol (read_with true false bs) out
-  || opt_close tol (read_with true true bs) out
-  || opt_close tol (read_with false false bs) out
-  || (Qlt_bool 0 tol && (opt_close_relaxed tol (read_with false false bs) out
-                         || opt_close_relaxed tol (read_with true false bs) out)).
+(* the model that counts is the repaired reader (read_fixed); nothing else is accepted *)
+Definition corr (tol : Q) (bs : list Z) (out : option oset) : bool := opt_close tol (read_fixed bs) out.
 
 Definition check (c : c07case) : verdict :=
   match c with
@@ -71,12 +56,11 @@ Fixpoint failing_go (i : nat) (l : list c07case) (acc : list nat * list nat * li
   end.
 Definition failing (l : list c07case) := failing_go 0 l ([], [], []).
 
-(* diagnostics used while developing / by replays: which of the two models matched *)
+(* diagnostics for replays: [matches read_fixed; matches the OLD sweep + OLD length; OLD sweep only; OLD length only] *)
 Definition which_model (c : c07case) : list bool :=
   match c with
   | CRead tol f trail bytes out =>
       let bs := expand bytes in
-      [opt_close tol (read_with false true bs) out; opt_close tol (read_with true true bs) out;
-       opt_close tol (read_with true false bs) out; opt_close tol (read_with false false bs) out;
-       opt_close_relaxed tol (read_with false false bs) out; opt_close_relaxed tol (read_with true false bs) out]
+      [opt_close tol (read_fixed bs) out; opt_close tol (read_old bs) out;
+       opt_close tol (read_with false false bs) out; opt_close tol (read_with true true bs) out]
   end.
